@@ -134,14 +134,14 @@ def shadow_units(tier):
     for br in ranks:
         gi = sh_C03.GET_INDICES_KINDS
         for i in range(0, len(gi), 4):
-            us.append(Unit(f"C13/shadow/frame/_get_indices[{','.join(gi[i:i + 4])}]/br={br}", "contracts.sh_C13", "frames_get_indices", (gi[i:i + 4], br), engine="shadow", timeout_s=900))
+            us.append(Unit(f"C13/shadow/frame/_get_indices[{','.join(gi[i:i + 4])}]/br={br}", "contracts.sh_C13", "frames_get_indices", (gi[i:i + 4], br), engine="shadow", timeout_s=900 if tier == "quick" else 2400))
         mk = sh_C01.KINDS
         for i in range(0, len(mk), 3):
-            us.append(Unit(f"C13/shadow/frame/matmul[{','.join(mk[i:i + 3])}]/br={br}", "contracts.sh_C13", "frames_matmul", (mk[i:i + 3], br), engine="shadow", timeout_s=900))
+            us.append(Unit(f"C13/shadow/frame/matmul[{','.join(mk[i:i + 3])}]/br={br}", "contracts.sh_C13", "frames_matmul", (mk[i:i + 3], br), engine="shadow", timeout_s=900 if tier == "quick" else 2400))
         for k in KINDS:
             if tier == "quick" and k in ("BatchRepeat", "BlockInterleaved", "BlockDiag"):
                 continue  # (minutes of non-linear index arithmetic: thorough tier)
-            us.append(Unit(f"C13/shadow/frame/public-ops/{k}/br={br}", "contracts.sh_C13", "frames_ops", (k, br), engine="shadow", timeout_s=900))
+            us.append(Unit(f"C13/shadow/frame/public-ops/{k}/br={br}", "contracts.sh_C13", "frames_ops", (k, br), engine="shadow", timeout_s=900 if tier == "quick" else 2400))
         for upper in (False, True):
             us.append(Unit(f"C13/shadow/frame/psd_safe_cholesky/br={br}/upper={upper}", "contracts.sh_C13", "frames_cholesky", (br, upper, True), engine="loopcut", timeout_s=600))
     return us
